@@ -61,6 +61,11 @@ func (p *Parser) nextToken() error {
 	}
 
 	token, err := p.lexer.NextToken()
+	// Comments are white space between tokens: never hand one to the lookahead,
+	// so that "12 %c\n 0 R" is still recognised as a reference.
+	for err == nil && token != nil && token.Type == TokenComment {
+		token, err = p.lexer.NextToken()
+	}
 	if err != nil {
 		// A token that cannot be read ends the input as far as the parser is
 		// concerned. Leaving the previous lookahead in place would make every
